@@ -365,7 +365,7 @@ BOUNDS = {
              'side; VLQ over [-2^40, 2^40]; payload length of from_bytes symbolic in [0, 2^21] (+-1 byte); 8 text types x '
              '12 texts incl. lengths 0,1,127,128,129,16383,16384; unknown meta: any unassigned type byte < 128, data '
              'length 0..3 symbolic; sequencer_specific data length 0..3 wide symbolic',
-    'thorough': 'as quick; unknown/sequencer data up to length 8',
+    'thorough': 'as quick; unknown/sequencer data up to length 16; denominator in 32 finer bit-length bands',
 }
 OUTSIDE = 'text not encodable in the active charset (C17); text contents beyond the menu; payload contents in the ' \
           'length-framing harness are a single fill value (framing does not read them); VLQ above 2^40'
@@ -380,6 +380,8 @@ def JOBS(tier):
     for t in INT_TYPES:
         jobs.append((meta_int, {'type': t}, {'cost': 5}))
     bands = [(0, 8), (9, 64), (65, 128), (129, 200), (201, 250), (251, 256), (257, 300)]
+    if tier != 'quick':
+        bands = [(0, 0)] + [(8 * i + 1, 8 * i + 8) for i in range(32)] + [(257, 300)]
     for lo, hi in bands:
         jobs.append((denominator, {'lo_bits': lo, 'hi_bits': hi}, {'width': 320, 'cost': 50}))
     jobs.append((key_signature, {}, {}))
@@ -389,7 +391,7 @@ def JOBS(tier):
         jobs.append((text_meta, {'type': t}, {'cost': 3}))
     jobs.append((vlq, {}, {}))
     jobs.append((length_framing, {}, {}))
-    top = 3 if tier == 'quick' else 8
+    top = 3 if tier == 'quick' else 16
     for L in range(0, top + 1):
         jobs.append((unknown_meta, {'L': L}, {}))
         jobs.append((sequencer_specific, {'L': L}, {}))
